@@ -577,6 +577,9 @@ func StrLen(a *Term) *Term {
 		if n, ok := ufFixedLen[a.S]; ok {
 			return IntC(int64(n))
 		}
+		if a.S == "fmtx" { // %x: two hex digits per byte
+			return Mul(IntC(2), StrLen(a.Args[0]))
+		}
 	case a.Op == "var":
 		if n, ok := fixedLenOfVar(a.S); ok {
 			return IntC(n)
@@ -825,6 +828,9 @@ func StrToCode(s *Term) *Term {
 		}
 		return mkInt("str.to_code", big.NewInt(int64(lo)), big.NewInt(int64(hi)), s)
 	}
+	if n := StrLen(s); n.IsConst() && n.I.Int64() == 1 {
+		return mkInt("str.to_code", big.NewInt(0), big.NewInt(255), s) // a one-byte string: never the -1 of the empty string
+	}
 	return mkInt("str.to_code", big.NewInt(-1), big.NewInt(255), s)
 }
 
@@ -999,6 +1005,36 @@ func StrAllIn(s *Term, classes string) *Term {
 			}
 		}
 		return True
+	}
+	// structural cases: a concatenation is within the classes iff all its parts are; any piece
+	// of the result of an uninterpreted function with a known alphabet is within that alphabet
+	if s.Op == "str.++" {
+		var cs []*Term
+		for _, a := range s.Args {
+			cs = append(cs, StrAllIn(a, classes))
+		}
+		return And(cs...)
+	}
+	base := s
+	for base.Op == "str.substr" {
+		base = base.Args[0]
+	}
+	if base.Op == "app" {
+		if al, ok := ufAlphabet[base.S]; ok && al != "" {
+			within := true
+			for i := 0; i < len(al); i++ {
+				in := false
+				for j := 0; j+1 < len(classes); j += 2 {
+					if al[i] >= classes[j] && al[i] <= classes[j+1] {
+						in = true
+					}
+				}
+				within = within && in
+			}
+			if within {
+				return True
+			}
+		}
 	}
 	if n := StrLen(s); n.hi != nil && n.hi.IsInt64() && n.hi.Int64() <= 16 {
 		// short string: one range constraint per position instead of a regular expression
